@@ -130,3 +130,9 @@ Definition corr_pptx_slides (is_ws : N -> bool) (c : list (str * option Z) * lis
 (* XLS: a whole workbook (every sheet as handed over by xlrd) -> the tables of all sheets *)
 Definition corr_xls_wb (c : list (list (list lcell)) * list (list (list val))) : bool :=
   list_eqb vgrid_eqb (xls_workbook_tables (fst c)) (snd c).
+
+(* DOCX: tables with their anchor paragraph indices (the two parallel lists of DocxContent) *)
+Definition corr_docx_anchor (c : xml * list (list (list str)) * list Z) : bool :=
+  let '(t, tabs, anchors) := c in
+  let r := docx_tables_anchored t in
+  tables_eqb (map fst r) tabs && list_eqb Z.eqb (map snd r) anchors.
